@@ -362,9 +362,25 @@ def machine(tier, rec, ctl):
                 names = list(params)
             # some histories live at a tiny parameter scale (per-capita rates of a model in absolute head counts): every
             # value, and hence every change between two assignments, is far below 1e-8 in absolute terms
+            # (or only some parameters are tiny - a per-capita rate next to an ordinary one - and a later assignment changes
+            # nothing but those)
             if not hasattr(self, "_pscale"):
-                self._pscale = data.draw(st.sampled_from([1.0, 1.0, 1.0, 1.0, 1e-9]))
-            vals = {p: S.sig(data.draw(S.fl(0.05, 5.0)) * self._pscale, 4) for p in names}
+                self._pscale = data.draw(st.sampled_from(["unit", "unit", "unit", "mixed", "mixed"]))
+                self._pscales, self._last = {}, {}
+            vals = {}
+            keep_ordinary = self._pscale == "mixed" and data.draw(st.booleans())
+            for p in names:
+                if p not in self._pscales:
+                    # mixed: the first parameter met stays ordinary (so that a fresh model's first assignment is never
+                    # all-tiny), the second is tiny, the others either
+                    k = len(self._pscales)
+                    self._pscales[p] = 1.0 if (self._pscale == "unit" or k == 0) else 1e-9 if k == 1 else \
+                        data.draw(st.sampled_from([1.0, 1e-9]))
+                if keep_ordinary and self._pscales[p] == 1.0 and p in self._last:
+                    vals[p] = self._last[p]
+                else:
+                    vals[p] = S.sig(data.draw(S.fl(0.05, 5.0)) * self._pscales[p], 4)
+            self._last.update(vals)
             self.do({"op": "set_params", "form": form, "values": vals})
 
         # ---- structural modifications
